@@ -51,3 +51,6 @@ def run(ctx):
     _sched.validate(ctx, progs, "window sweep: every (start, end, freq) x late registration x single/multi-step")
     _sched.validate(ctx, window_programs(ctx.rng, 400 if q else 4000, wide=False), "random windows (spec alphabet), 3 ids")
     _sched.validate(ctx, window_programs(ctx.rng, 300 if q else 4000, wide=True), "random windows, starts -5..10, freq 1..5")
+    if not q:
+        from .. import suite
+        suite.run(ctx, ["sched"])
